@@ -4,6 +4,6 @@
    (bool, option, unit, list, prod, sumbool, sumor -> the OCaml types of the same name). *)
 Require Extraction.
 Require Import ExtrOcamlBasic.
-From Tulz Require Import Common RingModel ArrayModel ResourceModel SubjectModel SubjectSpec ObservableModel RouterModel RouterSpec LocaleModel LocaleInst PathModel FileModel PoolModel ThreadModel.
+From Tulz Require Import Common RingModel ArrayModel ResourceModel SubjectModel SubjectSpec ObservableModel RouterModel RouterSpec LocaleModel LocaleInst PathModel FileModel PoolModel ThreadModel ConcRouterModel ConcRouterInst.
 Extraction Language OCaml.
-Extraction "model.ml" ring_run ring_spec_run arr_run arr_spec_run res_run subj_run subj_c_run subj_a_run obs_run router_run router_flat_run router_spec_run locale_run locale_spec_run path_run file_run pool_run thread_run.
+Extraction "model.ml" ring_run ring_spec_run arr_run arr_spec_run res_run subj_run subj_c_run subj_a_run obs_run router_run router_flat_run router_spec_run locale_run locale_spec_run path_run file_run pool_run thread_run conc_run.
